@@ -126,6 +126,22 @@ fn corpus() -> Vec<LinearModel> {
     m.add_constraint(vec![-2.0, 0.0], Comparison::LessOrEqual, 0.0);
     m.set_objective(vec![-1.0, 1.0], OptimizationType::Max);
     out.push(m);
+    // F56: a coefficient below the tableau's 1e-5 tolerance was read as zero when looking for unit columns (two scalings)
+    for (tiny, cap) in [(0.000001, 1000000.0), (0.000004, 100000.0)] {
+        let mut m = LinearModel::new();
+        m.add_variable("x", nn.clone()); m.add_variable("y", nn.clone());
+        m.add_named_constraint(vec![tiny, 1.0], Comparison::LessOrEqual, 1.0, "a");
+        m.add_named_constraint(vec![1.0, 0.0], Comparison::LessOrEqual, cap, "b");
+        m.set_objective(vec![1.0, 1.0], OptimizationType::Max);
+        out.push(m);
+    }
+    // F57: a model that is infeasible by less than the tableau's 1e-5 tolerance
+    let mut m = LinearModel::new();
+    m.add_variable("x", nn.clone()); m.add_variable("y", nn.clone());
+    m.add_named_constraint(vec![1.0, 1.0], Comparison::LessOrEqual, 1.0, "a");
+    m.add_named_constraint(vec![1.0, 1.0], Comparison::GreaterOrEqual, 1.000005, "b");
+    m.set_objective(vec![1.0, 2.0], OptimizationType::Min);
+    out.push(m);
     out
 }
 
